@@ -1,16 +1,136 @@
 package props
 
 import (
+	"bytes"
+	"context"
 	"fmt"
+	"reflect"
 	"sort"
 	"strings"
+	"time"
 
 	"verifharness/hx"
 
 	"github.com/attestantio/vouch/util"
 	"github.com/attestantio/vouch/verifmc/mc"
+	"github.com/rs/zerolog"
 	"github.com/spf13/viper"
 )
+
+// C19, part "builder client": the client vouch builds for a relay address takes its timeout and log level from the
+// path builderclient.<address>, resolved hierarchically.  The address is used as written: with and without a
+// trailing slash are two paths, each with its own configured values.
+var c19RelayForms = []string{"https://relay-a.example.com", "https://relay-a.example.com/", "http://localhost:18550/"}
+
+type c19BuilderCase struct {
+	addr            string
+	desc            string
+	wantTO, gotTO   time.Duration
+	wantLvl, gotLvl zerolog.Level
+	lookTO          time.Duration
+	lookLvl         zerolog.Level
+	err             string
+}
+
+func c19BuilderBody(c *c19BuilderCase) {
+	*c = c19BuilderCase{}
+	c.addr = c19RelayForms[mc.Choose(len(c19RelayForms))]
+	// levels: top, builderclient, builderclient.<address in each form>
+	levels := []string{"", "builderclient"}
+	for _, a := range c19RelayForms {
+		levels = append(levels, "builderclient."+a)
+	}
+	tos := []time.Duration{7 * time.Second, 5 * time.Second, 900 * time.Millisecond, 800 * time.Millisecond, 700 * time.Millisecond}
+	lvls := []string{"warn", "error", "debug", "trace", "info"}
+	lvlVals := []zerolog.Level{zerolog.WarnLevel, zerolog.ErrorLevel, zerolog.DebugLevel, zerolog.TraceLevel, zerolog.InfoLevel}
+	// the top level always carries both (vouch's defaults); the others are present or absent independently
+	hasTO, hasLvl := make([]bool, len(levels)), make([]bool, len(levels))
+	hasTO[0], hasLvl[0] = true, true
+	for i := 1; i < len(levels); i++ {
+		k := mc.Choose(4)
+		hasTO[i], hasLvl[i] = k&1 != 0, k&2 != 0
+	}
+	var y strings.Builder
+	fmt.Fprintf(&y, "timeout: '%s'\nlog-level: '%s'\n", tos[0], lvls[0])
+	y.WriteString("builderclient:\n")
+	if hasTO[1] {
+		fmt.Fprintf(&y, "  timeout: '%s'\n", tos[1])
+	}
+	if hasLvl[1] {
+		fmt.Fprintf(&y, "  log-level: '%s'\n", lvls[1])
+	}
+	for i := 2; i < len(levels); i++ {
+		if !hasTO[i] && !hasLvl[i] {
+			continue
+		}
+		fmt.Fprintf(&y, "  '%s':\n", c19RelayForms[i-2])
+		if hasTO[i] {
+			fmt.Fprintf(&y, "    timeout: '%s'\n", tos[i])
+		}
+		if hasLvl[i] {
+			fmt.Fprintf(&y, "    log-level: '%s'\n", lvls[i])
+		}
+	}
+	c.desc = strings.ReplaceAll(strings.TrimSpace(y.String()), "\n", " | ")
+	viper.Reset()
+	viper.SetConfigType("yaml")
+	must(viper.ReadConfig(bytes.NewBufferString(y.String())))
+	defer viper.Reset()
+	// reference: own level, then builderclient, then top
+	own := 0
+	for i := 2; i < len(levels); i++ {
+		if c19RelayForms[i-2] == c.addr {
+			own = i
+		}
+	}
+	c.wantTO, c.wantLvl = tos[0], lvlVals[0]
+	for _, i := range []int{1, own} {
+		if hasTO[i] {
+			c.wantTO = tos[i]
+		}
+		if hasLvl[i] {
+			c.wantLvl = lvlVals[i]
+		}
+	}
+	c.lookTO, c.lookLvl = util.Timeout("builderclient."+c.addr), util.LogLevel("builderclient."+c.addr)
+	util.VerifResetBuilderClients()
+	ctx, cancel := context.WithCancel(context.Background())
+	defer cancel()
+	client, err := util.FetchBuilderClient(ctx, c.addr, nil, "test")
+	if err != nil {
+		c.err = err.Error()
+		return
+	}
+	v := reflect.ValueOf(client)
+	if v.Kind() != reflect.Ptr || !v.Elem().FieldByName("timeout").IsValid() || !v.Elem().FieldByName("log").FieldByName("level").IsValid() {
+		c.err = "the builder client's fields cannot be read"
+		return
+	}
+	c.gotTO = time.Duration(v.Elem().FieldByName("timeout").Int())
+	c.gotLvl = zerolog.Level(v.Elem().FieldByName("log").FieldByName("level").Int())
+	util.VerifResetBuilderClients()
+}
+
+func c19BuilderCheck(c *c19BuilderCase, r *mc.Result) mc.Verdict {
+	v := mc.Verdict{Outcome: fmt.Sprintf("builder-client/%s/%s", c.wantTO, c.wantLvl), Nontrivial: true,
+		Sample: fmt.Sprintf("builder client for %s with {%s}: timeout %s log level %s", c.addr, c.desc, c.gotTO, c.gotLvl)}
+	switch {
+	case r.Panic != "":
+		v.Violation, v.Key = v.Sample+": panic: "+firstLine(r.Panic), "C19/builder-client/panic"
+	case c.err != "":
+		v.Violation, v.Key = fmt.Sprintf("builder client for %s with {%s}: %s", c.addr, c.desc, c.err), "C19/builder-client/not-built"
+	case c.lookTO != c.wantTO || c.lookLvl != c.wantLvl:
+		v.Violation = fmt.Sprintf("with {%s}, util.Timeout / util.LogLevel for builderclient.%s give %s / %s; the longest configured prefix holds %s / %s", c.desc, c.addr, c.lookTO, c.lookLvl, c.wantTO, c.wantLvl)
+		v.Key = "C19/builder-client/lookup"
+	case c.gotTO != c.wantTO:
+		v.Violation = fmt.Sprintf("with {%s}, the builder client for %s is built with timeout %s; the longest configured prefix of builderclient.%s holds %s", c.desc, c.addr, c.gotTO, c.addr, c.wantTO)
+		v.Key = "C19/builder-client/timeout"
+	case c.gotLvl != c.wantLvl:
+		v.Violation = fmt.Sprintf("with {%s}, the builder client for %s is built with log level %s; the longest configured prefix of builderclient.%s holds %s", c.desc, c.addr, c.gotLvl, c.addr, c.wantLvl)
+		v.Key = "C19/builder-client/log-level"
+	}
+	return v
+}
 
 // C19, part "strategy addresses": the helpers that collect the beacon node addresses of the configured
 // attestation-data and block-proposal strategies (util.BeaconNodeAddressesForAttesting / ForProposing) resolve
@@ -132,7 +252,15 @@ func init() {
 			}
 			units = append(units, u)
 		}
+		{
+			c := &c19BuilderCase{}
+			u := hx.Unit{Name: "C19/builder-client", Cfg: mc.Config{Fixed: true}, Bound: 0}
+			u.Body = func() { c19BuilderBody(c) }
+			u.Check = func(r *mc.Result) mc.Verdict { return c19BuilderCheck(c, r) }
+			units = append(units, u)
+		}
 		return units
 	}
+	p.Rule += "; (builder client) the real util.FetchBuilderClient for a relay address written in three forms (without and with trailing slash, host:port with slash) x every subset of {builderclient, builderclient.<each form>} carrying a timeout and / or a log level, from a YAML document: the client is built with the values at the longest configured prefix of builderclient.<address as written> (read from the client)"
 	p.Rule += "; (strategy addresses) util.BeaconNodeAddressesForAttesting / ForProposing for every style of the strategies concerned x every subset of the levels {top, strategies, strategies.<strategy>, strategies.<strategy>.<style>} holding a distinct address: each strategy's addresses are those of the longest configured prefix of its style path (no or unknown style: the top level)"
 }
